@@ -358,7 +358,40 @@ struct World
 
 	World(Args const& a_, Rng& r) : a(a_), rng(r)
 	{
-		C = addr("10.0.0.1"); P = addr("10.0.0.2"); T = addr("10.0.0.3"); U = addr("10.0.0.4"); H = addr("10.0.0.5");
+		pick_addresses();
+	}
+
+	// node addresses cover the octet space (0x7f/0x80 boundaries and high values in every position): the proxy parses
+	// and formats them byte by byte out of / into char buffers
+	ip::address X; // an address no node has
+	void pick_addresses()
+	{
+		ip::address* all[] = {&C, &P, &T, &U, &H, &X};
+		int const style = rng.choose(6);
+		if (style == 0)
+		{
+			char const* legacy[] = {"10.0.0.1", "10.0.0.2", "10.0.0.3", "10.0.0.4", "10.0.0.5", "10.0.9.9"};
+			for (int i = 0; i < 6; ++i) *all[i] = addr(legacy[i]);
+			return;
+		}
+		static int const first[] = {10, 126, 128, 129, 172, 192, 200, 223};
+		static int const oct[] = {0, 1, 2, 127, 128, 129, 200, 254, 255};
+		auto octet = [&]() -> std::uint32_t { return rng.coin(1, 4) ? std::uint32_t(rng.choose(256)) : std::uint32_t(oct[rng.choose(9)]); };
+		std::set<std::uint32_t> used;
+		std::uint32_t const net24 = (std::uint32_t(first[rng.choose(8)]) << 24) | (octet() << 16) | (octet() << 8);
+		for (int i = 0; i < 6; ++i)
+			for (;;)
+			{
+				std::uint32_t a = style == 1 ? (net24 | octet()) // everybody in one /24
+					: (std::uint32_t(first[rng.choose(8)]) << 24) | (octet() << 16) | (octet() << 8) | octet();
+				if (!used.insert(a).second) continue;
+				*all[i] = ip::address_v4(a);
+				break;
+			}
+		R().count("cases_with_generated_addresses");
+		bool high = false;
+		for (int i = 0; i < 5; ++i) { std::uint32_t const a = all[i]->to_v4().to_uint(); if ((a & 0x00808080u) != 0) high = true; }
+		if (high) R().count("cases_with_octet_ge_128_beyond_the_first");
 	}
 	std::uint64_t newkey() { return mix64(hcomb(a.seed, keyseq++) ^ 0x50c5); }
 
@@ -1165,7 +1198,7 @@ Session* gen_good(World& w, GoodOpt const& o)
 		{
 			int const how = r.choose(3);
 			if (how == 0) dport = unsigned(8100 + id);          // node exists, nobody listens on that port
-			else if (how == 1) dst = addr("10.0.9.9");          // no such node
+			else if (how == 1) dst = w.X;                       // no such node
 			else { dst = w.P; dport = 4000; }                   // the proxy's own node, nobody listens
 			s.desc += fmt(" ->%s:%u", dst.to_string().c_str(), dport);
 		}
@@ -1331,7 +1364,8 @@ void setup_net(World& w)
 	int const m1 = mtus[r.choose(6)], m2 = mtus[r.choose(6)];
 	w.net.set_mtu(w.C, w.P, m1);
 	w.net.set_mtu(w.P, w.T, m2); w.net.set_mtu(w.P, w.U, m2);
-	w.desc += fmt("net %s mtu C-P=%d P-T=%d", q.str().c_str(), m1, m2);
+	w.desc += fmt("net %s mtu C-P=%d P-T=%d addrs C=%s P=%s T=%s U=%s H=%s", q.str().c_str(), m1, m2, w.C.to_string().c_str(), w.P.to_string().c_str()
+		, w.T.to_string().c_str(), w.U.to_string().c_str(), w.H.to_string().c_str());
 }
 
 void run_world(World& w, std::set<int> const& deferred)
